@@ -134,6 +134,62 @@ def validateRun (id : String) (gI : Graph) (v : Variant) (dim : Nat) (cycI : Lis
     k := k + 1
   return (total, branchAll, branchHidden, brute)
 
+/-- one reported odd-cycle search of `mcb_sva_signed` (hook) -/
+structure SearchEv where
+  phase : Nat
+  hiddenBranch : Bool
+  source : Nat
+  limit : Option Int
+  found : Option Int
+  hidden : List Nat
+
+def parseSearchEvs (rest : List (List String)) : List SearchEv :=
+  (rest.filter (fun l => l.head? == some "hs")).filterMap fun l =>
+    match l with
+    | _ :: ph :: hb :: src :: lim :: fnd :: w :: hid =>
+      some { phase := ph.toNat!, hiddenBranch := hb == "1", source := src.toNat!,
+             limit := if lim == "-" then none else lim.toInt?,
+             found := if fnd == "1" then w.toInt? else none, hidden := (natsOf hid).getD [] }
+    | _ => none
+
+/-- literal correspondence of the search loops of `mcb_sva_signed` with the model, phase by phase: which
+searches are issued (sources, hidden sets: `hiddenPairs` of the observed enumeration order, resp. one search
+per vertex) and what each search returns (the signed-graph distance in the graph with the hidden edges
+removed, below the limit) -/
+def validateSearches (id : String) (gI : Graph) (sups : List (List Nat)) (evs : List SearchEv) : Option String := Id.run do
+  let mut k := 0
+  for S in sups do
+    let es := evs.filter (·.phase == k)
+    if S.length ≥ gI.n then
+      if es.map (·.source) != List.range gI.n then
+        return some s!"diff {id} phase {k} all-vertices-branch searches-from [{showNats (es.map (·.source))}] expected every vertex once"
+      if es.any (fun e => e.hiddenBranch || !e.hidden.isEmpty) then return some s!"diff {id} phase {k} wrong-branch"
+    else
+      let σ := es.map (·.source)
+      if setOf σ != S || σ.length != S.length then
+        return some s!"diff {id} phase {k} hidden-edge-branch searches-for [{showNats σ}] expected each signed edge of [{showNats S}] once"
+      let mut i := 0
+      for e in es do
+        if !e.hiddenBranch then return some s!"diff {id} phase {k} wrong-branch"
+        if setOf e.hidden != setOf (σ.drop i) then
+          return some s!"diff {id} phase {k} search {i} edge {e.source} hidden-set [{showNats e.hidden}] expected [{showNats (σ.drop i)}]"
+        i := i + 1
+    -- results of the searches
+    for e in es do
+      let (a, b) := if e.hiddenBranch then (sgNode gI.n (gI.src e.source) true, sgNode gI.n (gI.tgt e.source) true)
+                    else (sgNode gI.n e.source true, sgNode gI.n e.source false)
+      let d := (sgDijkstra (sgAdjHidden gI S e.hidden) a)[b]!
+      match e.found, d with
+      | some w, some dist =>
+        if w != dist then return some s!"diff {id} phase {k} search-from {e.source} returns {w}, signed-graph distance {dist}"
+        match e.limit with
+        | some l => if w ≥ l then return some s!"diff {id} phase {k} search-from {e.source} returns {w} not below the limit {l}"
+        | none => pure ()
+      | some w, none => return some s!"diff {id} phase {k} search-from {e.source} returns {w} but the target is unreachable"
+      | none, _ => pure ()     -- not found: beyond the limit, unreachable, or a walk that repeats an edge (discarded)
+    k := k + 1
+  return none
+
 /-- C01/C02: the implementation's cycles are replayed through the literal support bookkeeping -/
 def handleExact (c : Case) : String := Id.run do
   match parseGraph c.body with
@@ -159,7 +215,12 @@ def handleExact (c : Case) : String := Id.run do
       | .error e => return e
       | .ok (total, bA, bH, brute) =>
         if total != ret then return s!"viol {c.id} ret returned={ret} emitted-weight={total}"
-        return s!"ok {c.id} {g.n} {g.m} {dim} {total} {bA} {bH} {if brute then 1 else 0}"
+        let evs := parseSearchEvs rest
+        if var == "signed" && !evs.isEmpty then
+          match validateSearches c.id gI (phaseSupports v 0 sup0 cycI) evs with
+          | some d => return d
+          | none => pure ()
+        return s!"ok {c.id} {g.n} {g.m} {dim} {total} {bA} {bH} {if brute then 1 else 0} {evs.length}"
     | _, _, _, _, _ => return s!"diff {c.id} parse-exact-lines"
 
 /-- C15: literal replay of the spanner construction with the observed scan order -/
